@@ -103,39 +103,63 @@ func ruleLoopsBounded(w *World, r *RuleResult) {
 		key := "(*loop).done | iteration cap"
 		incr, capTest := false, false
 		var capIf *ssa.If
-		for _, b := range d.Blocks {
-			for _, in := range b.Instrs {
-				if st, ok := in.(*ssa.Store); ok && w.exprOf(d, st.Addr).String() == "&l.i" {
-					if bo, ok := st.Val.(*ssa.BinOp); ok && bo.Op == token.ADD && w.exprOf(d, bo.X).String() == "l.i" {
-						incr = true
+		var capFn *ssa.Function
+		hasSuffixLeaf := func(m map[string]bool, suf string) bool {
+			for l := range m {
+				if strings.HasSuffix(l, suf) {
+					return true
+				}
+			}
+			return false
+		}
+		// the counter may live in done itself or in a helper done was split into
+		for _, g := range w.closureFuncs(d) {
+			gi, gc := false, (*ssa.If)(nil)
+			for _, b := range g.Blocks {
+				for _, in := range b.Instrs {
+					if st, ok := in.(*ssa.Store); ok && w.exprOf(g, st.Addr).Name == "i" {
+						if bo, ok := st.Val.(*ssa.BinOp); ok && bo.Op == token.ADD && w.exprOf(g, bo.X).Name == "i" {
+							gi = true
+						}
+					}
+					if iff, ok := in.(*ssa.If); ok {
+						lv := w.exprOf(g, iff.Cond).leaves()
+						if hasSuffixLeaf(lv, ".i") && hasSuffixLeaf(lv, ".maxIterations") {
+							gc = iff
+						}
 					}
 				}
-				if iff, ok := in.(*ssa.If); ok {
-					lv := w.exprOf(d, iff.Cond).leaves()
-					if lv["l.i"] && lv["l.maxIterations"] {
-						capTest = true
-						capIf = iff
-					}
-				}
+			}
+			if gi && gc != nil {
+				incr, capTest, capIf, capFn = true, true, gc, g
 			}
 		}
 		okRet := false
 		if capIf != nil {
-			// the "continue" return (false, nil) must be dominated by the cap test, whose other edge returns an error
-			for _, b := range d.Blocks {
+			// in the function holding the counter: every return without an error is dominated by the cap test,
+			// whose other edge returns an error
+			ei := capFn.Signature.Results().Len() - 1
+			okRet = true
+			nOK := 0
+			for _, b := range capFn.Blocks {
 				rt, ok := b.Instrs[len(b.Instrs)-1].(*ssa.Return)
-				if !ok || len(rt.Results) != 2 {
+				if !ok || ei < 0 || ei >= len(rt.Results) || !isNilConst(rt.Results[ei]) {
 					continue
 				}
-				k, isK := rt.Results[0].(*ssa.Const)
-				if isK && k.Value != nil && !constant.BoolVal(k.Value) && isNilConst(rt.Results[1]) {
-					if capIf.Block().Dominates(b) {
-						okRet = true
-					} else {
-						okRet = false
-						break
+				if capFn == d {
+					// done itself: only the "not yet" returns (false, nil) need the cap
+					k, isK := rt.Results[0].(*ssa.Const)
+					if !isK || k.Value == nil || constant.BoolVal(k.Value) {
+						continue
 					}
 				}
+				nOK++
+				if !capIf.Block().Dominates(b) {
+					okRet = false
+				}
+			}
+			if nOK == 0 {
+				okRet = false
 			}
 			errEdge := false
 			for _, s := range capIf.Block().Succs {
@@ -144,6 +168,31 @@ func ruleLoopsBounded(w *World, r *RuleResult) {
 				}
 			}
 			okRet = okRet && errEdge
+			// done's own "not yet" returns hand on the counter function's error result
+			if capFn != d {
+				for _, b := range d.Blocks {
+					rt, ok := b.Instrs[len(b.Instrs)-1].(*ssa.Return)
+					if !ok || len(rt.Results) != 2 {
+						continue
+					}
+					k, isK := rt.Results[0].(*ssa.Const)
+					if !isK || k.Value == nil || constant.BoolVal(k.Value) {
+						continue
+					}
+					fromCap := false
+					switch v := rt.Results[1].(type) {
+					case *ssa.Call:
+						fromCap = callee(v) == capFn
+					case *ssa.Extract:
+						if c, isC := v.Tuple.(*ssa.Call); isC {
+							fromCap = callee(c) == capFn
+						}
+					}
+					if !fromCap && !w.definitelyNonNil(rt.Results[1], b) {
+						okRet = false
+					}
+				}
+			}
 		}
 		if incr && capTest && okRet {
 			r.ok(key, w.pos(d.Pos()), "l.i is incremented and compared with maxIterations before every `not yet` return; the cap edge returns an error", true)
